@@ -165,6 +165,16 @@ CHECKS["C19"] = dict(
     ref="DESIGN.md section 4 C19",
     technique="TLA+ resolution model checked by TLC, spec-behaviour replay into Cube")
 
+CHECKS["C06"] = dict(
+    text="3-D responses with every table-dimension type (categorical with the missing category "
+         "first / middle / last, cat-date, MR, CA items, CA categories) over every rows x columns "
+         "pairing x TLC-enumerated bags: all partition outputs and table_name against the "
+         "respondent-level meaning with the table element in membership mode; CubeSet families "
+         "(tabbook, CA-as-0th, numeric-measure rows as dict and JSON text) built from "
+         "spec-emitted member responses.",
+    ref="DESIGN.md section 4 C06",
+    technique="TLA+ survey model, TLC enumeration, spec-behaviour replay into Cube / CubeSet")
+
 NOT_YET = {}
 
 
